@@ -2,13 +2,16 @@
    Property theorems only.  Models: NV.Bcf.Ints (Int8/16/32 sentinels, width selection by scalar
    test and by min/max scan, byte images), NV.Bcf.Typed (descriptor byte, INFO Integer/Float/
    String values, per-sample FORMAT Integer/Float series, both directions), NV.Bcf.Genotype
-   (GT series).  The models describe the code AFTER the fix: commits 01..08 of this property (missing INFO
+   (GT series), NV.Bcf.Strings (Character/String values and series), NV.Bcf.StringMap (the
+   dictionaries built from header lines), NV.Bcf.Record (record framing and the site head).
+   The models describe the code AFTER the fix: commits 01..08 of this property (missing INFO
    value, IDX in the header, GT padding, phase of missing alleles, all-missing Integer vector
    series, lazy one-element vectors, checked allele arithmetic, end-of-vector/reserved floats),
    including its error results, and are compared with the real writer/reader byte for byte by
    bin/check C10. *)
 From Coq Require Import ZArith NArith List Bool.
-From NV Require Import Bcf.Ints Bcf.IntsProofs Bcf.Typed Bcf.TypedProofs Bcf.Genotype Bcf.GenotypeProofs.
+From NV Require Import Bcf.Ints Bcf.IntsProofs Bcf.Typed Bcf.TypedProofs Bcf.VectorsProofs Bcf.Genotype Bcf.GenotypeProofs
+  Bcf.Strings Bcf.StringsProofs Bcf.StringMap Bcf.StringMapProofs Bcf.Record Bcf.RecordProofs.
 Import ListNotations.
 Open Scope Z_scope.
 
@@ -162,30 +165,362 @@ Theorem bcf_genotype_allele_too_large_is_error : forall p ph, 63 <= p ->
 Proof. exact genotype_allele_too_large_is_error. Qed.
 Print Assumptions bcf_genotype_allele_too_large_is_error.
 
-(* c10_partial: the composition for the modelled kinds (partial: Character/String series, string
-   maps and record framing are not modelled).  What C10 states in full -- every record
-   the writer accepts is read back as the same record, string-map indices included -- is covered
-   beyond these kinds by the implementation-side oracle only. *)
+(* ---------------------------------------------------------------- vectors (deepening round) *)
+(* INFO Integer vectors (Number != 1): any length 1..2^31-1, missing entries, values anywhere in
+   -2^31+8..2^31-1, through the writer's own min/max scan (a missing entry counts as 0) and width
+   choice: read back as the same vector ([norm_info_ints]: the vector that is exactly one missing
+   entry is the missing value, VCF `X=.`).  A one-element vector has the bytes of a scalar. *)
+Theorem bcf_info_int_vector_roundtrip : forall vs,
+  vs <> [] ->
+  (forall n, In (Some n) vs -> -2147483640 <= n <= 2147483647) ->
+  Z.of_nat (length vs) <= 2147483647 ->
+  exists bs, enc_info_ints vs = Ok bs /\ dec_info_ints bs = ROk (norm_info_ints vs).
+Proof. exact info_int_vector_roundtrip. Qed.
+Print Assumptions bcf_info_int_vector_roundtrip.
+
+Theorem bcf_info_int_vector_below_min_is_error : forall vs n,
+  In (Some n) vs -> n < -2147483640 -> enc_info_ints vs = ErrInput.
+Proof. exact info_int_vector_below_min_is_error. Qed.
+Print Assumptions bcf_info_int_vector_below_min_is_error.
+
+(* INFO Float vectors: every entry pattern outside the reserved NaNs, missing entries *)
+Theorem bcf_info_float_vector_roundtrip : forall vs,
+  vs <> [] -> floats_ok vs -> Z.of_nat (length vs) <= 2147483647 ->
+  exists bs, enc_info_floats vs = Ok bs /\ dec_info_floats bs = ROk (norm_info_floats vs).
+Proof. exact info_float_vector_roundtrip. Qed.
+Print Assumptions bcf_info_float_vector_roundtrip.
+
+Theorem bcf_info_float_vector_missing_pattern_refuted :
+  exists vs bs, enc_info_floats vs = Ok bs /\ dec_info_floats bs <> ROk (norm_info_floats vs).
+Proof. exact info_float_vector_missing_pattern_refuted. Qed.
+Print Assumptions bcf_info_float_vector_missing_pattern_refuted.
+
+(* FORMAT Float, Number=1: one float per sample, missing samples included *)
+Theorem bcf_float_scalar_series_roundtrip : forall vals, floats_ok vals ->
+  exists bs, enc_fmt_float vals = Ok bs /\ dec_fmt_float (length vals) bs = ROk (BScalars vals).
+Proof. exact fmt_float_scalar_roundtrip. Qed.
+Print Assumptions bcf_float_scalar_series_roundtrip.
+
+(* FORMAT Float vectors: any number of samples, missing samples, missing entries, unequal lengths
+   (padded with the end-of-vector pattern), through the writer's own length computation.  The
+   writer needs one present vector (otherwise Err(InvalidInput), see below) and takes the common
+   length from the present vectors only; a missing sample occupies one entry, hence fmax_len >= 1. *)
+Theorem bcf_float_series_roundtrip : forall vals,
+  fentries_ok vals -> has_vector vals = true ->
+  (1 <= fmax_len vals)%nat -> Z.of_nat (fmax_len vals) <= 2147483647 ->
+  exists bs, enc_fmt_floats vals = Ok bs /\
+             dec_fmt_floats (length vals) bs = ROk (BVectors (map norm vals)).
+Proof. exact fmt_float_series_roundtrip. Qed.
+Print Assumptions bcf_float_series_roundtrip.
+
+Theorem bcf_float_series_any_length : forall m vals rest,
+  (forall s, In s vals -> fsample_ok s) ->
+  (forall s, In s vals -> (sample_len s <= m)%nat) ->
+  dec_fsamples (length vals) m
+    (flat_map (flat_map enc_f32) (map (fsample_raw_list m) vals) ++ rest)
+  = ROk (map norm vals).
+Proof. exact fseries_roundtrip. Qed.
+Print Assumptions bcf_float_series_any_length.
+
+Theorem bcf_float_series_all_missing_is_error : forall vals,
+  has_vector vals = false -> enc_fmt_floats vals = ErrInput.
+Proof. exact has_vector_false. Qed.
+Print Assumptions bcf_float_series_all_missing_is_error.
+
+(* ---------------------------------------------------------------- Character / String *)
+(* The typed string: every non-empty string of up to 2^31-1 bytes; the empty string is written
+   as String(0), which IS the missing value (class string-special-chars). *)
+Theorem bcf_info_string_roundtrip : forall s, s <> [] -> Z.of_nat (length s) <= 2147483647 ->
+  exists bs, enc_info_string s = Ok bs /\ dec_info_str bs = ROk (SStr s).
+Proof. exact info_str_roundtrip. Qed.
+Print Assumptions bcf_info_string_roundtrip.
+
+Theorem bcf_info_string_empty_refuted :
+  exists s bs, enc_info_string s = Ok bs /\ dec_info_str bs = ROk SNone.
+Proof. exact info_string_empty_refuted. Qed.
+Print Assumptions bcf_info_string_empty_refuted.
+
+Theorem bcf_info_char_roundtrip : forall c,
+  exists bs, enc_info_char c = Ok bs /\ dec_info_char bs = ROk (SChar c).
+Proof. exact info_char_roundtrip. Qed.
+Print Assumptions bcf_info_char_roundtrip.
+
+(* vectors are stored comma-joined with '.' for a missing element: they round-trip when no
+   element is '.' / ',' (characters), resp. empty, "." or holding a ',' (strings) *)
+Theorem bcf_info_char_vector_roundtrip : forall vs, vs <> [] -> chars_ok vs ->
+  Z.of_nat (length (join comma (map char_piece vs))) <= 2147483647 ->
+  exists bs, enc_info_chars vs = Ok bs /\ dec_info_chars bs = ROk (SChars vs).
+Proof. exact info_chars_roundtrip. Qed.
+Print Assumptions bcf_info_char_vector_roundtrip.
+
+Theorem bcf_info_string_vector_roundtrip : forall vs, vs <> [] -> strs_ok vs ->
+  Z.of_nat (length (join comma (map str_piece vs))) <= 2147483647 ->
+  exists bs, enc_info_strs vs = Ok bs /\ dec_info_strs bs = ROk (SStrs vs).
+Proof. exact info_strs_roundtrip. Qed.
+Print Assumptions bcf_info_string_vector_roundtrip.
+
+(* the class string-special-chars: [a,b] comes back as two elements, "." as a missing element,
+   [""] as the missing value; the character ',' disappears from a character vector *)
+Theorem bcf_info_string_vector_special_refuted :
+  (exists vs bs, enc_info_strs vs = Ok bs /\ dec_info_strs bs = ROk (SStrs [Some [97%N]; Some [98%N]])
+                 /\ vs = [Some [97%N; comma; 98%N]]) /\
+  (exists vs bs, enc_info_strs vs = Ok bs /\ dec_info_strs bs = ROk (SStrs [None; Some [97%N]])
+                 /\ vs = [Some [dot]; Some [97%N]]) /\
+  (exists vs bs, enc_info_strs vs = Ok bs /\ dec_info_strs bs = ROk SNone /\ vs = [Some []]).
+Proof. exact info_strs_special_refuted. Qed.
+Print Assumptions bcf_info_string_vector_special_refuted.
+
+Theorem bcf_info_char_vector_special_refuted :
+  exists vs bs, enc_info_chars vs = Ok bs /\ dec_info_chars bs = ROk (SChars [Some 97%N; Some 98%N])
+                /\ vs = [Some 97%N; Some comma; Some 98%N].
+Proof. exact info_chars_special_refuted. Qed.
+Print Assumptions bcf_info_char_vector_special_refuted.
+
+(* per-sample series: one descriptor String(max_len), one NUL-padded cell per sample, "." for a
+   missing sample (also when every sample is missing: fix 17).  Any number of samples, strings of
+   unequal length, the empty string included; fmt_str_ok = no NUL inside, length <= 2^31-1. *)
+Theorem bcf_string_series_roundtrip : forall vals,
+  vals <> [] ->
+  (forall s, In (Some s) vals -> fmt_str_ok s /\ s <> [dot]) ->
+  exists bs, enc_fmt_strings vals = Ok bs /\ dec_fmt_strings (length vals) bs = ROk vals.
+Proof. exact fmt_strings_roundtrip. Qed.
+Print Assumptions bcf_string_series_roundtrip.
+
+Theorem bcf_string_series_dot_refuted :
+  exists vals bs, enc_fmt_strings vals = Ok bs /\ dec_fmt_strings (length vals) bs = ROk [None; Some [97%N]]
+                  /\ vals = [Some [dot]; Some [97%N]].
+Proof. exact fmt_strings_dot_refuted. Qed.
+Print Assumptions bcf_string_series_dot_refuted.
+
+Theorem bcf_string_series_no_sample_is_error : enc_fmt_strings [] = ErrInput.
+Proof. exact fmt_strings_no_sample_is_error. Qed.
+Print Assumptions bcf_string_series_no_sample_is_error.
+
+Theorem bcf_char_series_roundtrip : forall vals,
+  vals <> [] -> (forall c, In (Some c) vals -> c <> dot /\ c <> nul) ->
+  exists bs, enc_fmt_chars vals = Ok bs /\ dec_fmt_chars (length vals) bs = ROk vals.
+Proof. exact fmt_chars_roundtrip. Qed.
+Print Assumptions bcf_char_series_roundtrip.
+
+(* a missing sample of a Character vector series comes back as the vector [missing] (the same
+   VCF text `.`): [char_arr_back] *)
+Theorem bcf_char_vector_series_roundtrip : forall vals,
+  vals <> [] ->
+  (forall cs, In (Some cs) vals -> cs <> [] /\ chars_ok cs /\
+     Z.of_nat (length (join comma (map char_piece cs))) <= 2147483647) ->
+  exists bs, enc_fmt_char_arrays vals = Ok bs /\
+             dec_fmt_char_arrays (length vals) bs = ROk (map char_arr_back vals).
+Proof. exact fmt_char_arrays_roundtrip. Qed.
+Print Assumptions bcf_char_vector_series_roundtrip.
+
+Theorem bcf_string_vector_series_roundtrip : forall vals,
+  vals <> [] ->
+  (forall vs, In (Some vs) vals -> vs <> [] /\ strs_ok vs /\
+     Z.of_nat (length (join comma (map str_piece vs))) <= 2147483647) ->
+  exists bs, enc_fmt_str_arrays vals = Ok bs /\
+             dec_fmt_str_arrays (length vals) bs = ROk (map norm_strs vals).
+Proof. exact fmt_str_arrays_roundtrip. Qed.
+Print Assumptions bcf_string_vector_series_roundtrip.
+
+Theorem bcf_string_vector_series_special_refuted :
+  exists vals bs, enc_fmt_str_arrays vals = Ok bs /\
+    dec_fmt_str_arrays (length vals) bs = ROk [Some [Some [97%N]; Some [98%N]]]
+    /\ vals = [Some [Some [97%N; comma; 98%N]]].
+Proof. exact fmt_str_arrays_special_refuted. Qed.
+Print Assumptions bcf_string_vector_series_special_refuted.
+
+(* ---------------------------------------------------------------- the dictionaries *)
+(* NV.Bcf.StringMap mirrors noodles-vcf header/string_maps.rs: PASS = 0, `insert` per header line
+   (INFO, FILTER, FORMAT lines in that order for the strings; contig lines separately), IDX when
+   present (insert_at, which resizes with holes), else order of appearance (push).
+   wf m: index -> name -> index and name -> index -> name.
+   string_map_resolve: when the build succeeds and no step overwrites a slot held by another ID
+   (no_clobber_from, a computed check), the dictionary is well formed, every header ID resolves to
+   an index that resolves back to it, an explicit IDX is the index, and PASS stays at 0. *)
+Theorem bcf_string_map_resolve : forall ls m,
+  build_strings ls = Some m -> no_clobber_from default_strings ls = true ->
+  wf m /\
+  (forall id idx, In (id, idx) ls ->
+     exists i, get_index_of m id = Some i /\ get_index m i = Some id /\
+               (forall k, idx = Some k -> i = k)) /\
+  get_index_of m PASS = Some 0%nat /\ get_index m 0 = Some PASS.
+Proof. exact build_strings_resolve. Qed.
+Print Assumptions bcf_string_map_resolve.
+
+Theorem bcf_contig_map_resolve : forall ls m,
+  build_contigs ls = Some m -> no_clobber_from empty_map ls = true ->
+  wf m /\
+  (forall id idx, In (id, idx) ls ->
+     exists i, get_index_of m id = Some i /\ get_index m i = Some id /\
+               (forall k, idx = Some k -> i = k)).
+Proof. exact build_contigs_resolve. Qed.
+Print Assumptions bcf_contig_map_resolve.
+
+(* input-only sufficient conditions: no line carries an IDX; or every line carries one and the
+   assignment is a function, injective, and only PASS uses index 0 / the name PASS *)
+Theorem bcf_string_map_no_idx : forall ls,
+  all_idx_none ls ->
+  exists m, build_strings ls = Some m /\ wf m /\
+    (forall id idx, In (id, idx) ls -> exists i, get_index_of m id = Some i /\ get_index m i = Some id) /\
+    get_index_of m PASS = Some 0%nat.
+Proof. exact build_strings_no_idx_ok. Qed.
+Print Assumptions bcf_string_map_no_idx.
+
+Theorem bcf_string_map_explicit_idx : forall ls,
+  all_idx_some ls -> idx_functional ls -> idx_injective ls -> fresh_for default_strings ls ->
+  exists m, build_strings ls = Some m /\ wf m /\
+    (forall id k, In (id, Some k) ls -> get_index_of m id = Some k /\ get_index m k = Some id) /\
+    get_index_of m PASS = Some 0%nat.
+Proof. exact build_strings_explicit_ok. Qed.
+Print Assumptions bcf_string_map_explicit_idx.
+
+(* the known class header-idx-conflict-accepted: two IDs given one IDX are both accepted and the
+   dictionary no longer resolves *)
+Theorem bcf_string_map_conflict_refuted : exists ls m, build_strings ls = Some m /\ ~ wf m.
+Proof. exact string_map_clobber_refuted. Qed.
+Print Assumptions bcf_string_map_conflict_refuted.
+
+(* ---------------------------------------------------------------- record framing *)
+Theorem bcf_index_roundtrip : forall i rest, 0 <= i <= 2147483647 ->
+  exists bs, enc_index i = Ok bs /\ dec_index (bs ++ rest) = Some (i, rest).
+Proof. exact index_roundtrip. Qed.
+Print Assumptions bcf_index_roundtrip.
+
+Theorem bcf_index_too_large_is_error : forall i, 2147483647 < i -> enc_index i = ErrInput.
+Proof. exact enc_index_err. Qed.
+Print Assumptions bcf_index_too_large_is_error.
+
+(* FILTER: none, one or several string-map indices as a typed int (vector) *)
+Theorem bcf_filter_indices_roundtrip : forall l rest,
+  (forall x, In x l -> 0 <= x <= 2147483647) -> Z.of_nat (length l) <= 2147483647 ->
+  exists bs, enc_indices l = Ok bs /\ dec_indices (bs ++ rest) = Some (l, rest).
+Proof. exact indices_roundtrip. Qed.
+Print Assumptions bcf_filter_indices_roundtrip.
+
+Theorem bcf_record_frame_roundtrip : forall sb ib rest,
+  sb <> [] -> Z.of_nat (length sb) <= 4294967295 -> Z.of_nat (length ib) <= 4294967295 ->
+  dec_frame (le_bytes 4 (Z.of_nat (length sb)) ++ le_bytes 4 (Z.of_nat (length ib)) ++ sb ++ ib ++ rest)
+  = Some (sb, ib, rest).
+Proof. exact frame_roundtrip. Qed.
+Print Assumptions bcf_record_frame_roundtrip.
+
+(* write_site / read_site up to FILTER.  site_ok: CHROM is in the contig dictionary, POS is none
+   or 1..2^31-1 (stored as POS-1; none = -1), rlen and the counts fit their fields, QUAL is none or
+   a pattern outside the reserved NaNs, IDs are non-empty without ';', alleles are non-empty,
+   FILTERs are in the string dictionary; n_fmt <= 255 and n_sample <= 2^24-1 share one u32. *)
+Theorem bcf_site_head_roundtrip : forall strings contigs s infos n_fmt ib,
+  wf strings -> wf contigs ->
+  site_ok strings contigs s (Z.of_nat (length infos)) n_fmt ->
+  enc_fields strings infos = Ok ib ->
+  exists sb, enc_site strings contigs s infos n_fmt = Ok sb /\ sb <> [] /\
+             dec_head strings contigs sb = Some (head_of s (Z.of_nat (length infos)) n_fmt, ib).
+Proof. exact site_head_roundtrip. Qed.
+Print Assumptions bcf_site_head_roundtrip.
+
+Theorem bcf_unknown_chrom_is_error : forall strings contigs s infos n_fmt,
+  get_index_of contigs (s_chrom s) = None -> enc_site strings contigs s infos n_fmt = ErrInput.
+Proof. exact unknown_chrom_is_error. Qed.
+Print Assumptions bcf_unknown_chrom_is_error.
+
+(* an INFO / FORMAT field: its key index is read back and resolves to the key; the reader then
+   stands at the typed value [vb] (the value theorems above) *)
+Theorem bcf_field_key_roundtrip : forall strings k v vb fs rest i,
+  wf strings -> get_index_of strings k = Some i -> Z.of_nat i <= 2147483647 ->
+  v = Ok vb -> enc_fields strings fs = Ok rest ->
+  exists kb, enc_fields strings ((k, v) :: fs) = Ok (kb ++ vb ++ rest) /\
+             dec_index (kb ++ vb ++ rest) = Some (Z.of_nat i, vb ++ rest) /\
+             get_index strings (Z.to_nat (Z.of_nat i)) = Some k.
+Proof. exact field_key_roundtrip. Qed.
+Print Assumptions bcf_field_key_roundtrip.
+
+(* c10_record_roundtrip_partial: write_record, then the reader's split and read_site: the same
+   site head, the reader positioned at the INFO block [ib], and the FORMAT block [fb] as written.
+   Partial: the INFO / FORMAT blocks are byte blocks here; each field in them is a key
+   (bcf_field_key_roundtrip) followed by a typed value whose round trip is one of the value
+   theorems, but the walk over SEVERAL fields (each value decoder returning its rest) and the
+   dispatch on the header's Number/Type are not composed in Coq. *)
+Theorem c10_record_roundtrip_partial : forall strings contigs s infos fmts (has_rows : bool) ib fb rest,
+  wf strings -> wf contigs ->
+  site_ok strings contigs s (Z.of_nat (length infos)) (Z.of_nat (length fmts)) ->
+  enc_fields strings infos = Ok ib ->
+  (if has_rows then enc_fields strings fmts else Ok (@nil N)) = Ok fb ->
+  (forall sb, enc_site strings contigs s infos (Z.of_nat (length fmts)) = Ok sb ->
+     Z.of_nat (length sb) <= 4294967295) ->
+  Z.of_nat (length fb) <= 4294967295 ->
+  exists bs sb, enc_record strings contigs s infos fmts has_rows = Ok bs /\
+    dec_frame (bs ++ rest) = Some (sb, fb, rest) /\
+    dec_head strings contigs sb
+      = Some (head_of s (Z.of_nat (length infos)) (Z.of_nat (length fmts)), ib).
+Proof. exact record_roundtrip. Qed.
+Print Assumptions c10_record_roundtrip_partial.
+
+Definition c10_record_roundtrip_full_statement : Prop :=
+  (* every record the writer accepts is read back as the same record: needs, beyond the theorem
+     above, decoders for the INFO and FORMAT blocks that walk all fields by the header's
+     Number/Type (the per-value round trips are proved; their composition over a block is only
+     checked against the implementation by the `rec` oracle) *)
+  forall strings contigs s infos fmts (has_rows : bool) bs,
+    enc_record strings contigs s infos fmts has_rows = Ok bs ->
+    exists sb fb, dec_frame bs = Some (sb, fb, []) /\
+      exists ib, dec_head strings contigs sb
+        = Some (head_of s (Z.of_nat (length infos)) (Z.of_nat (length fmts)), ib).
+
+(* c10_partial: the composition for the modelled kinds.  Partial: the walk over several INFO /
+   FORMAT fields of one record and the dispatch on the header's Number/Type are not composed in
+   Coq (see c10_record_roundtrip_full_statement); the lazy bcf::Record accessors and the VCF text
+   rendering are covered by the implementation-side oracle only; Character/String values are
+   proved outside the class string-special-chars, dictionaries outside header-idx-conflict-accepted. *)
 Theorem c10_partial :
   (forall n, -2147483640 <= n <= 2147483647 ->
      exists bs, enc_info_int n = Ok bs /\ dec_info_int bs = ROk (RInt n)) /\
   (forall n, n < -2147483640 -> enc_info_int n = ErrInput) /\
+  (forall vs, vs <> [] -> (forall n, In (Some n) vs -> -2147483640 <= n <= 2147483647) ->
+     Z.of_nat (length vs) <= 2147483647 ->
+     exists bs, enc_info_ints vs = Ok bs /\ dec_info_ints bs = ROk (norm_info_ints vs)) /\
   (forall vals, entries_within (-2147483640) 2147483647 vals ->
      (1 <= max_len vals)%nat -> Z.of_nat (max_len vals) <= 2147483647 ->
      exists bs, enc_fmt_ints vals = Ok bs /\
                 dec_fmt_ints (length vals) bs = ROk (BVectors (map norm vals))) /\
   (forall b, 0 <= b < 4294967296 -> ~ reserved_nan b ->
      exists bs, enc_info_float b = Ok bs /\ dec_info_float bs = ROk (RFloat b)) /\
+  (forall vs, vs <> [] -> floats_ok vs -> Z.of_nat (length vs) <= 2147483647 ->
+     exists bs, enc_info_floats vs = Ok bs /\ dec_info_floats bs = ROk (norm_info_floats vs)) /\
+  (forall vals, fentries_ok vals -> has_vector vals = true ->
+     (1 <= fmax_len vals)%nat -> Z.of_nat (fmax_len vals) <= 2147483647 ->
+     exists bs, enc_fmt_floats vals = Ok bs /\
+                dec_fmt_floats (length vals) bs = ROk (BVectors (map norm vals))) /\
   (forall code len rest, valid_code code = true -> 0 <= len <= 2147483647 ->
      exists bs, enc_type code len = Ok bs /\ read_type (bs ++ rest) = Some (code, len, rest)) /\
   (forall gs, (forall g a, In g gs -> In a g -> allele_valid a) ->
      (1 <= gt_max_len (map (map code) gs))%nat ->
      Z.of_nat (gt_max_len (map (map code) gs)) <= 2147483647 ->
-     exists bs, enc_gt gs = Ok bs /\ dec_gt (length gs) bs = ROk (map Some gs)).
+     exists bs, enc_gt gs = Ok bs /\ dec_gt (length gs) bs = ROk (map Some gs)) /\
+  (forall vs, vs <> [] -> strs_ok vs ->
+     Z.of_nat (length (join comma (map str_piece vs))) <= 2147483647 ->
+     exists bs, enc_info_strs vs = Ok bs /\ dec_info_strs bs = ROk (SStrs vs)) /\
+  (forall vals, vals <> [] ->
+     (forall vs, In (Some vs) vals -> vs <> [] /\ strs_ok vs /\
+        Z.of_nat (length (join comma (map str_piece vs))) <= 2147483647) ->
+     exists bs, enc_fmt_str_arrays vals = Ok bs /\
+                dec_fmt_str_arrays (length vals) bs = ROk (map norm_strs vals)) /\
+  (forall ls m, build_strings ls = Some m -> no_clobber_from default_strings ls = true ->
+     wf m /\ (forall id idx, In (id, idx) ls ->
+       exists i, get_index_of m id = Some i /\ get_index m i = Some id /\
+                 (forall k, idx = Some k -> i = k))) /\
+  (forall strings contigs s infos n_fmt ib, wf strings -> wf contigs ->
+     site_ok strings contigs s (Z.of_nat (length infos)) n_fmt ->
+     enc_fields strings infos = Ok ib ->
+     exists sb, enc_site strings contigs s infos n_fmt = Ok sb /\ sb <> [] /\
+                dec_head strings contigs sb = Some (head_of s (Z.of_nat (length infos)) n_fmt, ib)).
 Proof.
-  split; [|split; [exact int_below_min_is_error|split; [exact fmt_int_vector_roundtrip|
-    split; [exact float_roundtrip|split; [exact descriptor_roundtrip|exact genotype_roundtrip]]]]].
-  intros n H. destruct (int_width_sound n H) as [w [bs [_ [_ [_ [E D]]]]]]. exists bs. split; assumption.
+  split; [|split; [exact int_below_min_is_error|split; [exact info_int_vector_roundtrip|
+    split; [exact fmt_int_vector_roundtrip|split; [exact float_roundtrip|
+    split; [exact info_float_vector_roundtrip|split; [exact fmt_float_series_roundtrip|
+    split; [exact descriptor_roundtrip|split; [exact genotype_roundtrip|
+    split; [exact info_strs_roundtrip|split; [exact fmt_str_arrays_roundtrip|
+    split; [|exact site_head_roundtrip]]]]]]]]]]]].
+  - intros n H. destruct (int_width_sound n H) as [w [bs [_ [_ [_ [E D]]]]]]. exists bs. split; assumption.
+  - intros ls m Hb Hc. destruct (build_strings_resolve ls m Hb Hc) as [W [R _]]. split; assumption.
 Qed.
 Print Assumptions c10_partial.
 
@@ -204,3 +539,24 @@ Example c10_series_example :
   exists bs, enc_fmt_ints [Some [Some 1; None; Some (-121)]; None; Some [Some 300]] = Ok bs /\
              dec_fmt_ints 3 bs = ROk (BVectors [Some [Some 1; None; Some (-121)]; None; Some [Some 300]]).
 Proof. exact series_example. Qed.
+
+(* non-vacuity of the framing theorem: a concrete record (dictionary with an IDX gap, two IDs, one
+   ALT, two FILTERs, two INFO flags, QUAL 30.0) is written and its head read back *)
+Example c10_record_example :
+  exists strings contigs bs sb ib,
+    build_strings [([75; 48]%N, Some 5%nat); ([102; 48]%N, None); ([102; 49]%N, Some 200%nat)] = Some strings /\
+    build_contigs [([99; 48]%N, Some 1%nat)] = Some contigs /\
+    no_clobber_from default_strings [([75; 48]%N, Some 5%nat); ([102; 48]%N, None); ([102; 49]%N, Some 200%nat)] = true /\
+    let s := {| s_chrom := [99; 48]%N; s_pos := Some 100; s_rlen := 2; s_qual := Some 1106247680;
+                s_ids := [[114; 115]%N; [120]%N]; s_ref := [65; 67]%N; s_alts := [[71]%N];
+                s_filters := [[102; 49]%N; [102; 48]%N]; s_n_sample := 3 |} in
+    enc_record strings contigs s [([75; 48]%N, enc_info_missing)] [] false = Ok bs /\
+    dec_frame bs = Some (sb, [], []) /\
+    dec_head strings contigs sb = Some (head_of s 1 0, ib) /\
+    ib = [17%N; 5%N; 0%N].
+Proof.
+  eexists. eexists. eexists. eexists. eexists.
+  split; [vm_compute; reflexivity|]. split; [vm_compute; reflexivity|]. split; [vm_compute; reflexivity|].
+  cbv zeta. split; [vm_compute; reflexivity|]. split; [vm_compute; reflexivity|].
+  split; [vm_compute; reflexivity|reflexivity].
+Qed.
